@@ -14,7 +14,7 @@ RULE = ("seeded programs of the union workload (every family of the other checks
         "at seeded kernel events, the same victim twice, faults before start and racing with "
         "completion, gc.collect()). Non-trivial = at least one fault was observed by its victim "
         "or a block ended by an exception; distinct = distinct observable trace digest.")
-BUDGET = {"quick": {"cases": 90000, "wall_s": 100, "chunk": 200},
+BUDGET = {"quick": {"cases": 90000, "wall_s": 240, "chunk": 200},
           "thorough": {"cases": 1200000, "wall_s": 1500, "chunk": 500}}
 ASSUMPTIONS = ["programs only make valid API calls (the generators' validity rules)",
                "known finding F11 (first() with a failing contestant and a suspended consumer) "
